@@ -89,6 +89,15 @@ type innerHandler struct{ calls int }
 func (h *innerHandler) ServeHTTP(w http.ResponseWriter, r *http.Request) {
 	sched.Point(sched.Op{Kind: sched.OpEnv, Name: "wrapped handler entry"})
 	h.calls++
+	// an ordinary handler may edit, in place, the header values it can reach (e.g. tack a name onto a list): whatever
+	// it touches belongs to this request only, so no other response may ever show the mark
+	for _, hd := range []http.Header{w.Header(), r.Header} {
+		for _, v := range hd {
+			for i := range v {
+				v[i] += "~h"
+			}
+		}
+	}
 	w.Header().Set("X-Inner", "1")
 }
 
